@@ -31,6 +31,7 @@ fn script_safe(k: BoxedStrategy<Vec<u8>>) -> BoxedStrategy<Cmd> {
         2 => Just(vec![bs("DBSIZE")]),
         2 => Just(vec![bs("KEYS"), bs("*")]),
         1 => Just(vec![bs("FLUSHDB")]),
+        1 => Just(vec![bs("FLUSHALL")]),
         1 => Just(vec![bs("RANDOMKEY")]),
     ]
     .boxed()
@@ -140,7 +141,7 @@ fn excluder(a: &Active, w: &mut World, conn: usize, cm: &Cmd) -> Option<&'static
 pub fn spec() -> HistSpec {
     HistSpec {
         id: "C18",
-        rule: "generated histories of 2..20 blocks over 3 connections: SELECT of valid and invalid indexes, commands of every family on a shared 3-key pool sent directly, queued in MULTI/EXEC (with SELECT inside the transaction), through EVAL and EVALSHA of a wrapper script (commands and whole-keyspace views DBSIZE/KEYS/FLUSHDB/RANDOMKEY), a BLPOP/BRPOP blocked in database i while pushes arrive in j and then in i, WATCH in i followed by a change of the same name in j, FLUSHDB/FLUSHALL, KEYS/SCAN/DBSIZE/RANDOMKEY; every reply is compared with a 16-way model for the connection's selected database at that time, and a canonical dump of all 16 databases is compared after every refused command and at the end. Non-trivial = the same key name live in >= 2 databases, a non-zero database selected, and at least one non-direct path used; distinct by hash of the step list",
+        rule: "generated histories of 2..20 blocks over 3 connections: SELECT of valid and invalid indexes, commands of every family on a shared 3-key pool sent directly, queued in MULTI/EXEC (with SELECT inside the transaction), through EVAL and EVALSHA of a wrapper script (commands and whole-keyspace views DBSIZE/KEYS/FLUSHDB/FLUSHALL/RANDOMKEY), a BLPOP/BRPOP blocked in database i while pushes arrive in j and then in i, WATCH in i followed by a change of the same name in j, FLUSHDB/FLUSHALL, KEYS/SCAN/DBSIZE/RANDOMKEY; every reply is compared with a 16-way model for the connection's selected database at that time, and a canonical dump of all 16 databases is compared after every refused command and at the end. Non-trivial = the same key name live in >= 2 databases, a non-zero database selected, and at least one non-direct path used; distinct by hash of the step list",
         history: Some(history),
         max_len: 20,
         quick_cases: 3000,
